@@ -105,15 +105,27 @@ const Statement * FORStatement::doit(Context& ctx) const
   else
   {
     RT * data = reinterpret_cast<RT*>(ctx.topControlData());
-    /* var is type safe, so it can be read/write without care */
-    Integer nxt = *(data->iterator->integer()) + data->step;
-    if ((data->step > 0 && nxt > data->max) ||
-        (data->step < 0 && nxt < data->min))
+    /* var is type safe, so it can be read/write without care; but the body
+     * could have nullified it, and no next value exists after null */
+    Integer * cur = data->iterator->integer();
+    bool last = (cur == nullptr);
+    if (!last)
+    {
+      /* test the room left in the range before stepping, so the control
+       * variable never wraps around */
+      if (data->step > 0)
+        last = (*cur > data->max ||
+                (uint64_t)data->step > (uint64_t)data->max - (uint64_t)*cur);
+      else
+        last = (*cur < data->min ||
+                (uint64_t)0 - (uint64_t)data->step > (uint64_t)*cur - (uint64_t)data->min);
+    }
+    if (last)
     {
       ctx.unstackControl();
       return _next;
     }
-    *(data->iterator->integer()) = nxt;
+    *cur += data->step;
   }
 
   /* it should run with the given context, and will throw on error */
